@@ -85,7 +85,19 @@ func Split(hist []Entry, isStart func(Entry) bool) (blocks []Block, trailing []E
 type Aligner struct {
 	Steps   []Entry
 	Variant simapi.Decision // how a "fail" entry is realised: FailError, FailConflict or CrashBefore
+	// DiesAs is how a "crashBefore" entry is realised: CrashBefore (default) or,
+	// for controllers that return at once on a conflict, FailConflict (writes only).
+	DiesAs simapi.Decision
 	Env     func(Entry)     // executes an environment entry
+	// Virtual marks call entries that have no counterpart among the real calls of
+	// this driver (they are skipped); Ignore marks real calls the model does not
+	// describe (they proceed and are not counted as drift).
+	Virtual func(Entry) bool
+	Ignore  func(abs string) bool
+	// Window is how far ahead OnCall looks for a matching call entry when the
+	// next one does not match (the code iterates Go maps: loop order is free).
+	Window  int
+	Matched *Entry // the entry matched by the last OnCall, nil if none
 	i       int
 
 	Drift    int    // real calls the model did not predict + predicted calls never made
@@ -106,29 +118,73 @@ func (a *Aligner) runEnv() {
 
 // OnCall is given the abstract key of a real call and says what to do with it.
 func (a *Aligner) OnCall(abs string, write bool) simapi.Decision {
-	save := a.i
-	a.runEnvPeek(abs)
-	if a.i < len(a.Steps) && a.Steps[a.i].T == "call" && a.Steps[a.i].Abs() == abs {
-		f := a.Steps[a.i].F
-		a.i++
-		switch f {
-		case "fail":
-			d := a.Variant
-			if d == simapi.FailConflict && !write {
-				d = simapi.FailError
-			}
-			a.Injected = d.String()
-			return d
-		case "crashAfter":
-			a.Injected = simapi.CrashAfter.String()
-			return simapi.CrashAfter
-		}
+	a.Matched = nil
+	if a.Ignore != nil && a.Ignore(abs) {
 		return simapi.Proceed
 	}
-	_ = save
-	a.Drift++
-	a.DriftAbs = append(a.DriftAbs, "+"+abs)
+	a.skipVirtual()
+	a.runEnvPeek(abs)
+	a.skipVirtual()
+	j := a.find(abs)
+	if j < 0 {
+		a.Drift++
+		a.DriftAbs = append(a.DriftAbs, "+"+abs)
+		return simapi.Proceed
+	}
+	// rotate the matched entry to the front
+	e := a.Steps[j]
+	copy(a.Steps[a.i+1:j+1], a.Steps[a.i:j])
+	a.Steps[a.i] = e
+	a.Matched = &a.Steps[a.i]
+	a.i++
+	switch e.F {
+	case "fail":
+		d := a.Variant
+		if d == simapi.FailConflict && !write {
+			d = simapi.FailError
+		}
+		a.Injected = d.String()
+		return d
+	case "error":
+		a.Injected = simapi.FailError.String()
+		return simapi.FailError
+	case "crashBefore":
+		d := simapi.CrashBefore
+		if a.DiesAs == simapi.FailConflict && write {
+			d = simapi.FailConflict
+		}
+		a.Injected = d.String()
+		return d
+	case "crashAfter":
+		a.Injected = simapi.CrashAfter.String()
+		return simapi.CrashAfter
+	}
 	return simapi.Proceed
+}
+
+func (a *Aligner) skipVirtual() {
+	for a.Virtual != nil && a.i < len(a.Steps) && a.Steps[a.i].T == "call" && a.Virtual(a.Steps[a.i]) {
+		a.i++
+	}
+}
+
+// find returns the index of the first call entry with the given key among the
+// next Window+1 call entries (not looking past an environment entry), or -1.
+func (a *Aligner) find(abs string) int {
+	seen := 0
+	for j := a.i; j < len(a.Steps) && seen <= a.Window; j++ {
+		if a.Steps[j].T != "call" {
+			return -1
+		}
+		if a.Virtual != nil && a.Virtual(a.Steps[j]) {
+			continue
+		}
+		if a.Steps[j].Abs() == abs {
+			return j
+		}
+		seen++
+	}
+	return -1
 }
 
 // runEnvPeek executes pending env entries only if the call after them is the
@@ -152,7 +208,7 @@ func (a *Aligner) Finish() {
 				a.Env(a.Steps[a.i])
 			}
 			a.EnvSteps++
-		} else {
+		} else if a.Virtual == nil || !a.Virtual(a.Steps[a.i]) {
 			a.Drift++
 			a.DriftAbs = append(a.DriftAbs, "-"+a.Steps[a.i].Abs())
 		}
